@@ -314,6 +314,7 @@ type xGenOpts struct {
 	BadInputPct int // chance that a variable's raw value is a one-step mutant of a conformant one (C05)
 	NestedVarPct int // chance that a field of an input-object literal is written as a variable (default 20)
 	OmitVarPct   int // chance that a nullable / defaulted variable is not supplied (default 25)
+	OobIntPct    int // chance that an Int literal lies outside 32 bits (the document must then be rejected by validation)
 	ReusePct     int // chance of the fragment-reuse family at the root (two sites sharing a fragment, differing later)
 }
 
@@ -326,6 +327,7 @@ type xGen struct {
 	varDefs  map[string]*xValue
 	frags    []*xFrag
 	curFrag  int // index of the fragment whose body is being generated, -1 at operation level
+	expectInvalid bool // the generator deliberately wrote something validation must reject
 }
 
 func (g *xGen) overlap(a, b string) bool {
@@ -370,6 +372,11 @@ func (g *xGen) literal(t *xTy, depth int, allowVar bool) *xValue {
 	}
 	switch t.Name {
 	case "Int":
+		if g.r.Chance(g.o.OobIntPct) {
+			// an Int literal outside 32 bits: validation has to reject the document
+			g.expectInvalid = true
+			return &xValue{Kind: "int", I: []int{2147483648, -2147483649, 3000000000}[g.r.Intn(3)]}
+		}
 		return &xValue{Kind: "int", I: []int{0, 1, -1, 7, 42, 2147483647, -2147483648}[g.r.Intn(7)]}
 	case "Odd":
 		return &xValue{Kind: "int", I: []int{1, 3, -5, 99}[g.r.Intn(4)]}
